@@ -39,13 +39,29 @@ def done(**tags):
 
 
 LAST_FAIL = None
+FAIL_KNOWN = []
+_KNOWN_STATE = {}
 
 
 def fail(label):
     """End of a harness: the clause named ``label`` is violated on this path."""
-    global LAST_FAIL
+    global LAST_FAIL, FAIL_KNOWN
     LAST_FAIL = label
+    FAIL_KNOWN = sorted(k for k, v in _KNOWN_STATE.items() if v)
     return False
+
+
+def known(finding_id, in_class):
+    """Mark the input class of a recorded known finding.
+
+    Returns True when this path lies in the class AND the obligation is being
+    re-run with that finding excluded (PARAMS['exclude']): the harness then
+    skips the path, so that any OTHER violation is still found.  Otherwise it
+    only records whether the current path is in the class (reported with a
+    failure, and used to match the finding precisely)."""
+    in_class = True if in_class else False
+    _KNOWN_STATE[finding_id] = in_class
+    return in_class and finding_id in PARAMS.get("exclude", ())
 
 
 class OutsideModel(Exception):
